@@ -270,7 +270,8 @@ add("C07", "break", "expiry-check-dropped", UM + "localmanager.go",
     ("""	if expiryTime < manager.world.Now().Unix() {
 		return 0, 0, ErrUserExpired
 	}
-""", ""))
+""", """	_ = expiryTime
+"""))
 add("C07", "keep", "window-early-returns", SV + "auth.go",
     ("""	if !(clientTime.After(serverTime.Add(-timestampTolerance)) && clientTime.Before(serverTime.Add(timestampTolerance))) {
 		err = fmt.Errorf("%v: received timestamp %v", ErrTimestampOutOfWindow, timestamp)
@@ -358,7 +359,16 @@ add("C09", "break", "close-on-bad-proxy-method", SV + "dispatcher.go",
 		return""", """		}).Error(ErrBadProxyMethod)
 		conn.Close()
 		return"""))
-add("C09", "break", "recover-removed-from-parser", SV + "TLSAux.go",
+add("C09", "break", "recover-removed-from-keyshare-parser", SV + "TLSAux.go",
+    ("""func parseKeyShare(input []byte) (ret []byte, err error) {
+	defer func() {
+		if r := recover(); r != nil {
+			err = errors.New("malformed key_share")
+		}
+	}()
+""", """func parseKeyShare(input []byte) (ret []byte, err error) {
+"""))
+add("C09", "keep", "recover-only-in-calling-parser", SV + "TLSAux.go",
     ("""func parseExtensions(input []byte) (ret map[[2]byte][]byte, err error) {
 	defer func() {
 		if r := recover(); r != nil {
@@ -366,7 +376,7 @@ add("C09", "break", "recover-removed-from-parser", SV + "TLSAux.go",
 		}
 	}()
 """, """func parseExtensions(input []byte) (ret map[[2]byte][]byte, err error) {
-"""), ("""	extensions, err := parseExtensions(peeled[pointer:])""", """	extensions, err := parseExtensions(append([]byte{}, peeled[pointer:]...))"""))
+"""))
 add("C09", "break", "banner-before-verdict", SV + "dispatcher.go",
     ("	ci, finishHandshake, err := AuthFirstPacket(data, transport, sta)\n", "	conn.Write([]byte{0x15, 0x03, 0x03, 0x00, 0x02, 0x02, 0x28})\n	ci, finishHandshake, err := AuthFirstPacket(data, transport, sta)\n"))
 add("C09", "break", "record-length-check-forgets-header", SV + "dispatcher.go",
